@@ -26,8 +26,16 @@ Definition gm_hyp (s : state) (rk : word -> nat) : bool * bool * bool * bool :=
      forallb (fun p => Nat.leb (rk p) (nraw (st_heap s) (st_reg s))) (nkeys (st_heap s)),
    range_b (st_reg s) (st_minptr s) (st_maxptr s),
    order_b (st_reg s) (st_order s)).
+(* specification side: a state over the heap in which nothing was ever collected; by mark_exact the
+   marks of `mark true true` on it are exactly registered /\ (root-flagged \/ reachable) *)
+Definition gm_full_state (hp : heap) (rg : registry) (order : list word) (tls : list contents)
+    (stack : list word) : state :=
+  {| st_heap := hp; st_reg := rg; st_order := order; st_mitems := 0;
+     st_minptr := fold_right N.min 18446744073709551615%N order;
+     st_maxptr := fold_right N.max 0%N order;
+     st_tls := tls; st_stack := stack |}.
 Definition gm_z_of_n := Z.of_N.      (* conv.ml.inc refers to the extracted type z *)
 
 Extraction Language OCaml.
 Extraction "../ocaml/gen/Mark.ml" gm_step gm_step_with gm_mark gm_tls_recurses gm_mar_guarded gm_st0
-  gm_registered gm_marked gm_contents gm_tls gm_reach gm_nset gm_ndel gm_nempty gm_hyp gm_z_of_n.
+  gm_registered gm_marked gm_contents gm_tls gm_reach gm_nset gm_ndel gm_nempty gm_hyp gm_full_state gm_z_of_n.
